@@ -63,6 +63,25 @@ def fill(claim, na):
         "annotations, the frozen writer-variable/slice pairing table in sa/props/C07.py.",
         "DESIGN.md section 2, C07",
     )
-    for p in ["C01", "C02", "C03", "C04", "C05", "C08", "C09", "C10",
+    claim(
+        "C01",
+        "coupled-state (who-writes-which-field-on-which-axis) analysis, Copyable contract over the "
+        "resolved class hierarchy, symbolic reshape/shape check (custom ast analysis; bonds.pyx lowered)",
+        "Decides structural coherence, copy independence and the negative-integer clause: every "
+        "function of atoms.py that returns a new container sets its coordinates, annotations, bond "
+        "list and box; an index applied to the model axis of the coordinates is applied to the "
+        "box with the same expression, an atom-axis index to annotations and bond list; np.delete/"
+        "concatenate/stack use the axis of that field; the cached length is updated; bond lists "
+        "are joined with offsets and atom-count placeholders; the box of the first boxed element "
+        "is kept; a reshape merges only adjacent axes of the documented shape; the Copyable "
+        "contract (constructor arity, super chain, fresh values on the clone, no bound method as "
+        "value) for Atom/AtomArray/AtomArrayStack/BondList; slice(i, i+1) handles i=-1; a caller's "
+        "index is never compared with positions un-normalised. Not decided: equality with a "
+        "list-of-atoms model over arbitrary histories (values).",
+        "Trusted: the field/axis idiom tables and the frozen exemptions of sa/props/C01.py; the "
+        "documented shapes in docstrings; numpy view sharing on slicing is by design.",
+        "DESIGN.md section 2, C01",
+    )
+    for p in ["C02", "C03", "C04", "C05", "C08", "C09", "C10",
               "C11", "C12", "C13", "C14", "C15", "C16", "C17", "C18", "C19"]:
         na(p, PENDING)
